@@ -4,8 +4,9 @@ import "bytes"
 
 // H-KEYS: KeyWithTs / ParseKey / ParseTs / CompareKeys / SameKey on symbolic keys.
 func VpHKeys() {
-	la := vpChoose("lenA", 4) // 0..3
-	lb := vpChoose("lenB", 4)
+	maxLen := vpParam("keys.maxlen", 3)
+	la := vpChoose("lenA", maxLen+1) // 0..maxLen
+	lb := vpChoose("lenB", maxLen+1)
 	a := vpBytes("a", la)
 	b := vpBytes("b", lb)
 	ta := vpU64("tsA")
